@@ -93,7 +93,7 @@ func planKinds(ctx context.Context, client *sqlclient.Client, changes []schema.C
 	var ks, creates []string
 	for _, c := range p.Changes {
 		if m := reCreateTable.FindStringSubmatch(strings.Join(strings.Fields(c.Cmd), " ")); m != nil {
-			creates = append(creates, "create "+hx(m[1])+" "+createOpts(c.Cmd))
+			creates = append(creates, "create "+hx(m[1])+" "+createOpts(c.Cmd)+" "+createColTypes(c.Cmd))
 		}
 		f := strings.Fields(c.Cmd)
 		k := strings.ToUpper(f[0])
